@@ -56,12 +56,45 @@ if s.count(hook) != 1:
     sys.stderr.write("patch_smux: newSession does not look as expected\n")
     sys.exit(2)
 s = s.replace(hook, "\tgo s.keepalive()\n\tsimSessions = append(simSessions, s) // [verif]\n\treturn s\n}")
+# A root-cause probe for the known finding C02-smux-early-first-frame: a data frame that arrives for a
+# stream identifier which is not registered yet is dropped by recvLoop; if OpenStream registers that very
+# identifier afterwards, the peer's first frame for the new stream has been lost. Observation only.
+psh = """						if stream, ok := s.streams[sid]; ok {
+							stream.pushBytes(newbuf)
+							atomic.AddInt32(&s.bucket, -int32(written))
+							stream.notifyReadEvent()
+						}
+"""
+if s.count(psh) != 1:
+    sys.stderr.write("patch_smux: recvLoop does not look as expected\n")
+    sys.exit(2)
+s = s.replace(psh, psh.replace("						}\n", "						} else {\n							simDropped[simKey{s, sid}] = true // [verif]\n						}\n", 1) if False else psh[:-len("						}\n")] + "						} else {\n							simDropped[simKey{s, sid}] = true // [verif]\n						}\n")
+reg = "		s.streams[sid] = stream\n		return stream, nil\n"
+if s.count(reg) != 1:
+    sys.stderr.write("patch_smux: OpenStream does not look as expected\n")
+    sys.exit(2)
+s = s.replace(reg, "		s.streams[sid] = stream\n		if simDropped[simKey{s, sid}] { // [verif]\n			SimEarlyFirstFrames++\n		}\n		return stream, nil\n")
 s += """
 // [verif] see /verif/patch_smux.py
+type simKey struct {
+	s   *Session
+	sid uint32
+}
+
+var simDropped = map[simKey]bool{}
+
+// SimEarlyFirstFrames counts streams whose first inbound data frame arrived, and was dropped, before
+// OpenStream had registered them.
+var SimEarlyFirstFrames int
+
 var simSessions []*Session
 
 // SimResetSessions forgets the sessions of earlier runs.
-func SimResetSessions() { simSessions = nil }
+func SimResetSessions() {
+	simSessions = nil
+	simDropped = map[simKey]bool{}
+	SimEarlyFirstFrames = 0
+}
 
 // SimOpenStreams returns the number of streams in the stream tables of the sessions that are not closed.
 // Called at quiescent points only.
